@@ -51,10 +51,10 @@ def main(pid, tier, repo, seed, replay):
     outcomes = []      # one per engine run
     if prop.get("v"):
         import engine_v
-        for prog in prop["v"]:
-            if prog.get("tier") == "thorough" and tier != "thorough":
-                continue
-            outcomes.append(run_v(engine_v, repo, prog, pid))
+        from concurrent.futures import ThreadPoolExecutor
+        progs = [prog for prog in prop["v"] if not (prog.get("tier") == "thorough" and tier != "thorough")]
+        with ThreadPoolExecutor(max_workers=4) as ex:
+            outcomes.extend(ex.map(lambda prog: run_v(engine_v, repo, prog, pid), progs))
     if prop.get("l"):
         import engine_l
         outcomes.append(engine_l.run(tier_list(prop["l"], tier), pid, BUILD))
@@ -76,7 +76,11 @@ def main(pid, tier, repo, seed, replay):
         if o.get("undecided"):
             undecided.extend("%s: %s" % (o["engine"], u) for u in o["undecided"])
     violations, known_hits = [], []
+    seen = set()
     for f in failures:
+        if f["obligation"] in seen:
+            continue
+        seen.add(f["obligation"])
         kf = match_known(known, pid, f)
         if kf:
             known_hits.append((kf, f))
@@ -148,8 +152,9 @@ def run_v(engine_v, repo, prog, pid):
             canary_failed.add(u[7:])
             continue
         f["engine"] = "V"
-        if u in units:
-            o["failures"].append(f)
+        if u in units and not (prog.get("exclude") and re.search(prog["exclude"], f["obligation"])):
+            if f["obligation"] not in [g["obligation"] for g in o["failures"]]:
+                o["failures"].append(f)
         elif u in lemmas or u == "":
             # lemmas / spec vocabulary do not depend on /repo: a failure there is proof instability
             o["undecided"].append("lemma or spec obligation failed (%s) — not attributable to /repo" % f["obligation"])
